@@ -137,11 +137,7 @@ PROPS["C18"]["steps"].append(
         H("c18_sha1_pad_n%03d" % n, "bounded", "the REAL SHA1Hash::hash on one %d-byte message equals an independent RFC 3174 transcription (padding rule: 0x80, zeros, "
           "64-bit length, block count) -- the padding depends on the length only, so this decides section 4 of the real code at this length" % n,
           bound="message length %d, one fixed content" % n, tier=("quick" if n in (55, 56) else "thorough"), timeout=1800)
-        for n in (0, 1, 54, 55, 56, 57, 60, 63, 64, 65, 119, 120, 121)
-    ] + [
-        H("c18_sha1_digest_n%02d" % n, "bounded", "the REAL SHA1Hash::hash on EVERY message of exactly %d bytes equals the RFC 3174 transcription, bit for bit" % n,
-          bound="message length %d, symbolic content" % n, tier="thorough", timeout=7200)
-        for n in (0, 1, 3, 55, 56, 57, 60, 64)
+        for n in (0, 1, 54, 55, 56, 57, 60, 63, 64, 119, 120)
     ]))
 
 from . import gen_c11 as _g
